@@ -148,7 +148,10 @@ def inv (p : Parsed R) (s : Stored R) (authalic : Series.Fourier R) (x y : R) : 
     let sign : R := if northPolar then -1.0 else 1.0
     let rho := Scalar.hypot (x - x0) (y - y0)
     let denom := a * a * s.qp
-    let xi := Scalar.asin ((-sign) * (1.0 - rho * rho / denom))
+    let sinXi := (-sign) * (1.0 - rho * rho / denom)
+    -- outside the disc: flagged and not counted, as in the other aspects
+    if Scalar.gt (Scalar.abs sinXi) 1.0 then none else
+    let xi := Scalar.asin sinXi
     let lon := lon0 + Scalar.atan2 (x - x0) (sign * (y - y0))
     let lat := Ellipsoid.latitudeInvSeries xi authalic
     some (lon, lat)
